@@ -13,7 +13,7 @@ from . import common, pure, tlc
 
 class PureSpec:
     def __init__(self, prop, module, trace_module, driver, cfg, sample, variants, assumptions, rule,
-                 keep='pc = "done"', spec_files=None, drift=None, invariants_note="", extra_cases=None):
+                 keep='pc = "done"', spec_files=None, drift=None, invariants_note="", extra_cases=None, in_field="in"):
         self.prop = prop
         self.module = module
         self.trace_module = trace_module
@@ -27,7 +27,8 @@ class PureSpec:
         self.spec_files = spec_files or []
         self.drift = drift
         self.invariants_note = invariants_note
-        self.extra_cases = extra_cases  # fn(tier) -> list of (case_in, variant): cases beyond the dumped graph (real sizes)
+        self.extra_cases = extra_cases
+        self.in_field = in_field        # which state variable is handed to the driver  # fn(tier) -> list of (case_in, variant): cases beyond the dumped graph (real sizes)
 
 
 def _spec_key(files):
@@ -80,8 +81,8 @@ def run_pure(spec: PureSpec, tier: str, only_cases=None) -> int:
         r = common.rng("variants", prop)
         jobs = []
         for s in states:
-            for v in spec.variants(tier, r, s["in"]):
-                jobs.append((len(jobs), s["in"], v))
+            for v in spec.variants(tier, r, s[spec.in_field]):
+                jobs.append((len(jobs), s[spec.in_field], v))
         if spec.extra_cases:
             for cin, v in spec.extra_cases(tier):
                 jobs.append((len(jobs), cin, v))
@@ -94,7 +95,7 @@ def run_pure(spec: PureSpec, tier: str, only_cases=None) -> int:
     # drift against the I-layer outcome (information only)
     drift = 0
     if spec.drift and only_cases is None:
-        by_in = {json.dumps(s["in"], sort_keys=True): s for s in states}
+        by_in = {json.dumps(s[spec.in_field], sort_keys=True): s for s in states}
         for c in cases:
             s = by_in.get(json.dumps(c["in"], sort_keys=True))
             if s is not None and not spec.drift(s["out"], c["out"]):
@@ -153,7 +154,7 @@ def selftest_pure(spec: PureSpec, tier="quick") -> int:
     model = model_stage(spec, tier)
     states, _ = pure.select_states(model["dump"], 400, spec.prop + "selftest", keep=lambda b: spec.keep in b)
     r = common.rng("selftest", spec.prop)
-    jobs = [(i, s["in"], spec.variants("quick", r, s["in"])[0]) for i, s in enumerate(states)]
+    jobs = [(i, s[spec.in_field], spec.variants("quick", r, s[spec.in_field])[0]) for i, s in enumerate(states)]
     cases = pure.replay(spec.driver, jobs)
     rejects, _ = pure.validate(spec.trace_module, cases, "%s_selftest" % spec.module.lower())
     good = [c for c in cases if c["id"] not in rejects]
@@ -170,7 +171,7 @@ def selftest_pure(spec: PureSpec, tier="quick") -> int:
     print("SELFTEST %s: %d accepted calls, %d corruptions (%s), %d rejected, %d not rejected (%s)" % (
         spec.prop, len(good), len(corrupted), dict(kinds), len(rej2), len(missed), dict(missed_kinds)))
     for c in missed[:3]:
-        print("SELFTEST-NOT-REJECTED (admissible under a disjunctive reading?)", json.dumps(c))
+        print("SELFTEST-NOT-REJECTED (admissible under a disjunctive reading?)", json.dumps(c)[:400])
     # a corruption may land on another admissible outcome where the P-layer is a disjunction of readings; the binding is
     # considered broken when some kind of corruption is never rejected or more than 10% of all corruptions pass
     blind = [k for k in kinds if missed_kinds.get(k, 0) == kinds[k]]
